@@ -68,6 +68,19 @@ class DeferredTrade(core.Algo):
         return True
 
 
+class DeferredFlow(core.Algo):
+    """A user algo that books a capital flow with update=False and leaves the closing
+    update to the engine."""
+
+    def __init__(self, amount, flow=True):
+        super().__init__()
+        self.amount, self.flow = amount, flow
+
+    def __call__(self, target):
+        target.adjust(float(self.amount), update=False, flow=bool(self.flow))
+        return True
+
+
 class ReadReports(core.Algo):
     """A user algo that looks at the public report properties of its strategy in
     the middle of a run (reads are transparent: C08; the final reports: C18)."""
@@ -129,6 +142,8 @@ def make_algo(name, params, prog, spylog=None):
 
     if name == "SetCash":
         return SetCash(p["c"], p.get("start", 0))
+    if name == "DeferredFlow":
+        return DeferredFlow(p["amount"], p.get("flow", True))
     if name == "DeferredTrade":
         return DeferredTrade(p["ticker"], q=p.get("q"), amount=p.get("amount"))
     if name == "ReadReports":
